@@ -60,6 +60,18 @@ known("KF9-ad-sum-unchecked-when-one-head-grounded", ["C30"],
       "0.6::a; 0.6::b. query(a).   (answers a: 0.6; with query(b) added InvalidValue is raised)",
       match={"clause": "invalid-annotation-accepted", "invalid_kind": "ad-sum-one"})
 
+known("KF10-equal-terms-with-different-hashes", ["C18"],
+      "objects that compare equal have different hashes: Constant.__eq__ (and Var.__eq__) compare the printed text while __hash__ hashes the value / name, so Constant(1) == Constant('1') == Term('1') and Var('X') == Term('X') with different hashes; Not('\\+',a) == Not('not',a) with different hashes",
+      "hash(Constant(1)) != hash(Constant('1')) although Constant(1) == Constant('1'); hash(Not('\\+',a)) != hash(Not('not',a))",
+      match_any=[{"clause": "eq-but-different-hash", "cause": "same-text-different-class"},
+                 {"clause": "eq-but-different-hash", "cause": "negation-spelling"}])
+known("KF11-python-equality-stricter-than-unification", ["C18"],
+      "ground terms that ProbLog's unification treats as identical do not compare equal: a quoted atom 'a' vs a (signature strips the quotes, == does not), Term('1') vs Constant(1) as arguments, Not('\\+',a) vs Term('\\+',a)",
+      "Term(\"'a'\") != Term('a') but unify_value accepts the pair; Term('f',Term('a'),Constant(1)) != Term('f',Term('a'),Term('1'))",
+      match_any=[{"clause": "eq-differs-from-unification", "cause": "quoted-vs-unquoted-atom"},
+                 {"clause": "eq-differs-from-unification", "cause": "same-text-different-class"},
+                 {"clause": "eq-differs-from-unification", "cause": "negation-spelling"}])
+
 fixed("FX3-symbolic-normalize-parentheses", ["C05"], "75632d5",
       "SemiringSymbolic.normalize printed a / z without parentheses around a product z: expression evaluates to a wrong number",
       "0.6::f. 0.8::h(c2). 0.1::a. p :- h(c2), f. query(a). evidence(p).  symbolic result 0.8*0.6*0.1 / 0.8*0.6*(0.1 + (1-0.1)) = 0.036, expected 0.1")
@@ -72,6 +84,10 @@ fixed("FX5-struct-cmp-numbers", ["C15", "C33"], "b2da9d2",
 fixed("FX6-same-var-vs-negative-int", ["C15"], "0de22f3",
       "-1 == X succeeded for an unbound variable X (variables are negative ints internally)",
       "e :- -1 == X. query(e).")
+fixed("FX7-intdiv-truncation", ["C16"], "466e01c", "X is -7 // 2 gave -4 (floor) instead of -3 (truncation)", "r(X) :- X is -7 // 2.")
+fixed("FX8-round-integer", ["C16"], "eaa3896", "round(2.5) = 2 (banker's rounding) and integer(2.5) = 2 (truncation) instead of 3", "r(X) :- X is round(2.5).")
+fixed("FX9-float-parts-type", ["C16"], "c81281a", "float_integer_part/float_fractional_part returned integers", "r(X) :- X is float_integer_part(2.5).")
+fixed("FX10-arith-typeerror", ["C16", "C27"], "e815c27", "a bitwise operator applied to a float raised Python's TypeError instead of a ProbLog ArithmeticError", "r(X) :- X is 1.5 /\\ 1.")
 fixed("FX1-break-cycles-true-child", ["C01", "C09"], "29bdee9",
       "AssertionError in LogicFormula.get_node(0) from _break_cycles when a disjunction below an evidence node contains the TRUE node",
       "0.1::h(c1). d(c1). d(c2). p(X) :- d(X), r(c1). p(Y) :- d(Y). r(X) :- p(X). r(Y) :- d(Y), h(X). query(p(c1)). evidence(r(c1)).")
